@@ -762,6 +762,8 @@ _MIRROR = {'[': ']', '(': ')', '{': '}', '<': '>'}
 
 def pump_text(fam, k: int) -> str:
     name, prefix, unit, suffix, _ = fam
+    if name.startswith('dag:'):
+        return dag_text(prefix, suffix, k)
     if unit is None:  # numbered distinct items
         item = {'succ-distinct': '^b{i}, ', 'block-args': '%a{i} : i32, ', 'dict-keys': 'k{i}, ', 'props-keys': 'k{i}, ',
                 'aliases': '#a{i} = {i}\n', 'alias-chain': '#a{j} = [#a{i}]\n', 'fwd-values': '%v{i}, ',
@@ -854,3 +856,120 @@ def lit_matrix_text(i: int) -> str:
     v = LIT_VALUES[i % len(LIT_VALUES)]
     i //= len(LIT_VALUES)
     return LIT_CONTEXTS[i % len(LIT_CONTEXTS)].format(v=v, t=t)
+
+
+# ------------------------------------------------------------------ end-of-input matrix: the text ENDS in a proper prefix of a token
+EOF_CONTEXTS = ['', '"test.op"() {value = ', '"test.op"() <{value = ', '"test.op"() : () -> ', '"test.op"(', '"test.op"(%0, ',
+                '"test.op"() : () -> tensor<', '"test.op"() : () -> tensor<2x', '"test.op"() : () -> memref<2xi32, ',
+                '"test.op"() : () -> vector<[', '"test.op"() : () -> () loc(', '"test.op"() : () -> () loc("f":', '"test.op"() {a = dense<',
+                '"test.op"() {a = dense<[1, ', '"test.op"() {a = array<i32: ', '"test.op"() {a = array<f32: ',
+                '"test.op"() {a = affine_map<(d0) -> (', '"test.op"() {a = strided<[', '"test.op"() {a = [', '"test.op"() {a = {b = ',
+                '"test.op"() {a = 1 : ', '"test.op"() {a = @f::', '"test.op"() {a = #builtin.int<', '"test.op"() {a = opaque<',
+                '%0 = ', '%0:', '"test.op"() ({\n', '"test.op"() ({\n^bb0(%a : ', '"test.op"() [', '#a = ', '!a = ',
+                '{-# dialect_resources: { builtin: { r: ', 'func.func @f(%a : ', 'builtin.module {\n%0 = arith.constant ',
+                '%0 = "test.op"() : () -> i32\n"test.op"(%0) : (', '"test.op"() {a = dense_resource<', '"test.op"() {"']
+EOF_PREFIXES = ['0', '0x', '0X', '0x1', '0xF', '00', '1', '1.', '1.5', '1.e', '1.0e', '1.0e+', '1.0e-', '1.0e+1', '1e', '-', '-0', '-0x', '-1.',
+                '"', '"\\', '"\\4', '"\\4F', '"\\n', '"\\"', '"a', '"a\\', '"\n', '""', '@', '@"', '@"a', '@"\\', '@a', '@a:', '@a::', '@a::@',
+                '^', '^b', '^4', '%', '%a', '%4', '%a#', '%a#1', '%a:', '%a:1', '#', '#a', '#a.', '#a.b', '#a.b<', '#-', '#-}', '!', '!a',
+                '!a.', '!a.b<', ':', '::', '.', '..', '...', '<', '<{', '{', '{-', '{-#', '(', '[', ',', '=', '->', '/', '//', '// c',
+                'a', 'a.', 'x', '2x', '2x?', '?', '?x', '*', '*x', 'i', 'i3', 'si', 'f', 'f3', 'bf', 'tensor', 'tensor<', 'dense<"0x', 'loc',
+                'loc(', 'unit', 'true', 'affine_map<', 'array<', 'array<i32', 'array<i32:', '\\', 'é', '٣', '\x00', ' ', '\n', '\t', '\r']
+
+
+def eof_matrix_size():
+    return len(EOF_CONTEXTS) * len(EOF_PREFIXES)
+
+
+def eof_matrix_text(i: int) -> str:
+    return EOF_CONTEXTS[i % len(EOF_CONTEXTS)] + EOF_PREFIXES[i // len(EOF_CONTEXTS) % len(EOF_PREFIXES)]
+
+
+_NUMSTR = re.compile(r'"(?:[^"\\\n]|\\.)*"|0[xX][0-9a-fA-F]+|\d+\.\d*(?:[eE][+-]?\d+)?|\d+')
+
+
+def truncation_points(s: str):
+    """every token boundary of s, plus cuts inside numeric tokens (every position) and string tokens (after the quote,
+    after the first character, after every backslash and the character following it, before the closing quote)"""
+    pts = set()
+    for a, b in token_spans(s):
+        pts.add(a)
+        pts.add(b)
+    for m in _NUMSTR.finditer(s):
+        a, b = m.start(), m.end()
+        if s[a] == '"':
+            pts.update(p for p in (a + 1, a + 2, b - 1) if a < p < b)
+            for k in range(a + 1, b - 1):
+                if s[k] == '\\':
+                    pts.update(p for p in (k + 1, k + 2, k + 3) if p < b)
+        elif b - a <= 24:
+            pts.update(range(a + 1, b))
+        else:
+            pts.update((a + 1, a + 2, a + 3, b - 1))
+    pts.discard(0)
+    pts.discard(len(s))
+    return sorted(pts)
+
+
+# ------------------------------------------------------------------ compact DAGs: source of size N whose printed form has 2^N nodes
+DAG_CHAINS = {
+    'tuple': ('!{p}0 = i32\n', '!{p}{i} = tuple<!{p}{j}, !{p}{j}>\n', '!{p}{n}'),
+    'func': ('!{p}0 = i32\n', '!{p}{i} = (!{p}{j}) -> !{p}{j}\n', '!{p}{n}'),
+    'func2': ('!{p}0 = i32\n', '!{p}{i} = (!{p}{j}, !{p}{j}) -> ()\n', '!{p}{n}'),
+    'complex-tuple': ('!{p}0 = tuple<i1, i1>\n', '!{p}{i} = tuple<!{p}{j}, i1, !{p}{j}>\n', '!{p}{n}'),
+    'array': ('#{p}0 = 1 : i32\n', '#{p}{i} = [#{p}{j}, #{p}{j}]\n', '#{p}{n}'),
+    'dict': ('#{p}0 = 1 : i32\n', '#{p}{i} = {{x = #{p}{j}, y = #{p}{j}}}\n', '#{p}{n}'),
+    'array-of-type': ('#{p}0 = i32\n', '#{p}{i} = [#{p}{j}, #{p}{j}]\n', '#{p}{n}'),
+}
+# {X}: last alias of the chain; {Y}: last alias of a second, separately built but structurally equal chain
+DAG_TYPE_USES = {
+    'result': '%0 = "test.op"() : () -> {X}',
+    'result-operand': '%0 = "test.op"() : () -> {X}\n"test.op"(%0) : ({X}) -> ()',
+    'result-8-uses': '%0 = "test.op"() : () -> {X}\n' + '"test.op"(%0, %0) : ({X}, {X}) -> ()\n' * 4,
+    'forward-operand': '"test.op"() ({{\n"test.op"(%0) : ({X}) -> ()\n%0 = "test.op"() : () -> {X}\n}}) : () -> ()',
+    'operand-equal-chain': '%0 = "test.op"() : () -> {X}\n"test.op"(%0) : ({Y}) -> ()',
+    'block-arg': '"test.op"() ({{\n^bb0(%a : {X}):\n  "test.op"(%a) : ({X}) -> ()\n}}) : () -> ()',
+    'successor-arg': '"test.op"() ({{\n^bb0(%a : {X}):\n  "test.termop"(%a) [^bb0] : ({X}) -> ()\n}}) : () -> ()',
+    'attr-value': '"test.op"() {{a = {X}}} : () -> ()',
+    'prop-value': '"test.op"() <{{a = {X}}}> : () -> ()',
+    'attr-twice': '"test.op"() {{a = {X}, b = {X}}} : () -> ()\n"test.op"() {{a = {X}}} : () -> ()',
+    'in-function-type': '"test.op"() {{a = ({X}) -> {X}}} : () -> ()',
+    'tensor-element': '%0 = "test.op"() : () -> tensor<2x{X}>',
+    'custom-func': 'func.func @f(%a : {X}) -> {X} {{\n  func.return %a : {X}\n}}',
+    'custom-func-decl': 'func.func private @f({X}) -> {X}',
+    'unrealized-cast': '%0 = "test.op"() : () -> {X}\n%1 = builtin.unrealized_conversion_cast %0 : {X} to {X}',
+    'typed-attr': '"test.op"() {{a = 1 : {X}}} : () -> ()',
+    'dense-type': '"test.op"() {{a = dense<1> : tensor<2x{X}>}} : () -> ()',
+    'mismatch-diagnostic': '%0 = "test.op"() : () -> {X}\n"test.op"(%0) : (i32) -> ()',
+}
+DAG_ATTR_USES = {
+    'attr-value': '"test.op"() {{a = {X}}} : () -> ()',
+    'prop-value': '"test.op"() <{{a = {X}}}> : () -> ()',
+    'attr-twice': '"test.op"() {{a = {X}, b = {X}}} : () -> ()\n"test.op"() {{a = {X}}} : () -> ()',
+    'in-array': '"test.op"() {{a = [{X}, {X}]}} : () -> ()',
+    'in-dict': '"test.op"() {{a = {{k = {X}}}}} : () -> ()',
+    'custom-attr-dict': 'func.func private @f() attributes {{a = {X}}}',
+    'module-attr': 'builtin.module attributes {{a = {X}}} {{\n}}',
+    'loc-fused-metadata': '"test.op"() : () -> () loc(fused<{X}>[unknown])',
+    'equal-chain-in-dict': '"test.op"() {{a = {X}, b = {Y}}} : () -> ()',
+}
+DAG_KS = [6, 10, 12, 14, 16, 18, 20, 22, 24, 26]
+
+
+def dag_families():
+    fams = []
+    for chain, (c0, ci, last) in DAG_CHAINS.items():
+        uses = DAG_ATTR_USES if c0.startswith('#') else DAG_TYPE_USES
+        for use in uses:
+            fams.append((f'dag:{chain}:{use}', chain, None, use, list(DAG_KS)))
+    return fams
+
+
+def dag_text(chain: str, use: str, n: int) -> str:
+    c0, ci, last = DAG_CHAINS[chain]
+    uses = DAG_ATTR_USES if c0.startswith('#') else DAG_TYPE_USES
+    tpl = uses[use]
+    out = []
+    for p in (('t', 'u') if '{Y}' in tpl else ('t',)):
+        out.append(c0.format(p=p))
+        out.extend(ci.format(p=p, i=i, j=i - 1) for i in range(1, n + 1))
+    return ''.join(out) + tpl.format(X=last.format(p='t', n=n), Y=last.format(p='u', n=n)) + '\n'
